@@ -19,7 +19,7 @@ import sys
 from . import tlc, svccheck as K
 from .common import Verdict, main_wrapper, Machinery, seed
 
-POLICIES = ['eager', ('lag', 1), 'blocked']
+POLICIES = ['eager', ('lag', 1), 'blocked', 'starved']
 
 
 def main(tier='quick'):
